@@ -417,6 +417,15 @@ def rule_probe_discipline(check, rule):
                     (node.value.attr.startswith('__') or node.value.attr.startswith('_sigtools__')):
                 tgt = node.value
             if tgt is None:
+                # the look-before-you-leap forms of the same probes cannot raise AttributeError: getattr(x, '<dunder>', default) /
+                # hasattr(x, '<dunder>')
+                if isinstance(node, ast.Call) and isinstance(node.func, ast.Name) and len(node.args) >= 2 and \
+                        isinstance(node.args[1], ast.Constant) and isinstance(node.args[1].value, str) and \
+                        (node.args[1].value.startswith('__') or node.args[1].value.startswith('_sigtools__')) and \
+                        ((node.func.id == 'getattr' and len(node.args) == 3) or node.func.id == 'hasattr'):
+                    n += 1
+                    check.holds(rule, site_of(fi, node), 'probe %s cannot raise AttributeError' % norm(node)[:60],
+                                key='%s|probe:%s' % (fi.key, norm(node)[:60]))
                 continue
             n += 1
             chain = es.try_chain(fi, node)
